@@ -339,9 +339,12 @@ type builder struct {
 // lands in the loop's scope or in the enclosing one is not said anywhere.
 func ownScope(kind int) bool {
 	switch kind {
-	case kFn, kPartial, kContent, kBlock, kFnReturn, kFnReturnIf, kFnTwoParams, kFnTwice, kFnRec,
-		kPartialVar, kContentDeflt, kPartialLay, kPartialHeld, kContentHeld, kPartialLoop:
+	case kPartial, kContent, kPartialVar, kContentDeflt, kPartialLay, kPartialHeld, kContentHeld, kPartialLoop:
 		return true
+		// user functions (kFn, kFnReturn, kFnReturnIf, kFnTwoParams, kFnTwice, kFnRec) and the block helper on a child
+		// context (kBlock) are left out on purpose: for functions the statement speaks of "parameters and let-bound
+		// names" only - an engine whose function bodies assign to the variables of the enclosing scope (closures)
+		// keeps it -, and block helpers are not named at all
 	}
 	return false
 }
@@ -1155,7 +1158,7 @@ func (g *rgen) nodes2(depth int, vis map[string]bool, top, own bool, sure map[st
 	return out, alt
 }
 
-const rule = "scope constructs {partial and contentFor / contentOf whose data hash is HELD in a variable, used by two calls and read back afterwards, one held hash handed to a partial on two loop passes; for, user function defined and called on the spot, partial with data, contentFor + contentOf with data in one scope (the stored block, and likewise the partial, is used a second time WITHOUT data: nothing the first use was given or let-bound may be visible), block helper rendering its block with BlockWith on a fresh child context} and 18 further kinds of them {for binding the name as its KEY variable; for over a hash literal binding the name as key / as value; for over an Iterator, name as value / as key; for over [] and over nil (no iteration); for of TWO iterations binding the name; for in a silent tag; function ending in return; function returning from inside an if with dead lets after it; function of two parameters; function defined once and CALLED TWICE with other arguments; function that calls itself two deep and probes every name again after the inner call; partial whose data value reads a variable of the caller; contentOf for a name nothing stores, rendering its own default block with the data, and again without; partial with data and a layout that lets x, v, k and prints only the partial; for over the result of a function that lets x and v before it returns the collection}; names {x, y, v, p, k} bound by let (fresh and shadowing), and through the construct itself (loop variable / key variable / parameter / data key equal to a name that is let-bound outside); g and len come from the data only (len is also the name of a default helper and must stay the data's value in every scope); probes <%= if (n) { %>[n=<%= n %>]<% } else { %>[n=-]<% } %> for every name before, inside and after each construct. Spices on the fixed pattern: a function defined once at top level and called at every level (it lets x and k before reading them, so definition-site and call-site resolution agree); bare assignment to a name let-bound in the same scope; shadowing lets that read what they shadow (let x = x + \"~L1\"); a let inside an if block inside the scope, read after the scope ended; partial(\"n\") / contentOf(\"n\") spelled without data. (E1) every nesting of 1, 2 and 3 of the five basic constructs (5 + 25 + 125) x 4 binding patterns x every subset of levels whose construct is ENTERED TWICE (wrapped in a two-iteration loop that binds nothing else), with a fixed let/probe pattern at every level; in half of them a block of literal text stored at top level is replayed with contentOf inside every deeper scope before that scope's lets; (E2) each of the 18 further kinds alone, inside and around each basic construct, x 4 binding patterns x every subset of levels entered twice; (E3) each spice alone and all together x every nesting of 1 and 2 of all 23 kinds x 4 binding patterns; (E4) BARE ASSIGNMENT TO NAMES BOUND FURTHER OUT: inside the body of every construct that has a scope of its own (user function in its 6 kinds, partial in its 6 kinds, contentFor / contentOf in its 3 kinds, block helper on a child context) the fixed pattern first probes, then writes `n = v` without let to x (let-bound one level up, or bound there as parameter / data key / loop variable), y (let-bound two levels up), g and len (bound by the context data only) - whichever the construct just entered does not bind itself; g from its own outer value (g = g + ..), len inside an if block (not a scope) - and probes them again, inside and after the construct, also when it is entered twice; and, when a loop of any of the 11 kinds stands inside such a construct S (only single-pass loops in between, S not the recursive function), its body assigns g and len as the first thing of every pass (S then leaves them alone, so that they are bound two or three frames up and in no frame from S inwards): the new value is read in the pass, the old one after S; what S itself sees between the end of the loop and its own end is not probed (the write may be the loop's or S's: not said). Loops directly under the binding frame and nestings of loops only are left out (not said either). Every nesting of 1 and 2 of the 26 kinds that holds such a construct x 4 binding patterns, a sample of depth 3, a third also with the bare / if-let / chain-let shapes. Oracle: the statement makes what is set inside these constructs their own (\"parameters and let-bound names inside a user-defined function, and names set inside a partial or a contentOf/contentFor block with its own data ... leave same-named outer variables unchanged\"; child lookups fall through, writes stay local), so the program must render exactly what the SAME PROGRAM WITH EACH OF THESE ASSIGNMENTS WRITTEN AS let renders under the reference interpreter (kind \"assign\"; no failure tolerated); (RA) the random sequences of (R) with such assignments drawn directly in the bodies of own-scope constructs, to names that are certainly bound there (context data, names let-bound earlier in an enclosing block), same oracle; (F) a function that lets x and y and then fails on an unknown identifier - directly or inside any of the 21 constructs that run their body - called as the condition f() / !f() / f() == nil / f() != nil, at top level, in a for body, in a function body and in a loop of two iterations: the statements do not say whether that failure is tolerated, so the render may fail, and IF it succeeds its output must be that of the program with the condition written out as the literal a nil call gives; (R) random let/probe/construct sequences nested to depth 3 over all 23 kinds with the spices as further statements; (S) ten bodies whose own meaning the statements leave open (return inside a loop, in a nested loop, from a nested if; reading or shadowing what the last iteration bound; continue and break inside silent ifs, also after text; a function that returns from a loop, called twice; a block stored and used in every iteration; loops that never run) inside a SILENT construct - <% let r = f(..) %>, <% f(..) %>, a silent for of one and of two iterations - at top level, in a for body, in a function body and in a loop of two iterations: the render may fail, and IF it succeeds its output must be that of the program without the silent construct. In every phase a quarter of the cases parse their template once and execute it twice on fresh contexts; both executions must agree. Oracle: environment-chain reference interpreter (each construct is a child scope; lets and bound names vanish when it ends; outer names stay readable and unchanged; top-level let persists). Non-trivial: every case nests at least one construct (distinct by template + partial texts)."
+const rule = "scope constructs {partial and contentFor / contentOf whose data hash is HELD in a variable, used by two calls and read back afterwards, one held hash handed to a partial on two loop passes; for, user function defined and called on the spot, partial with data, contentFor + contentOf with data in one scope (the stored block, and likewise the partial, is used a second time WITHOUT data: nothing the first use was given or let-bound may be visible), block helper rendering its block with BlockWith on a fresh child context} and 18 further kinds of them {for binding the name as its KEY variable; for over a hash literal binding the name as key / as value; for over an Iterator, name as value / as key; for over [] and over nil (no iteration); for of TWO iterations binding the name; for in a silent tag; function ending in return; function returning from inside an if with dead lets after it; function of two parameters; function defined once and CALLED TWICE with other arguments; function that calls itself two deep and probes every name again after the inner call; partial whose data value reads a variable of the caller; contentOf for a name nothing stores, rendering its own default block with the data, and again without; partial with data and a layout that lets x, v, k and prints only the partial; for over the result of a function that lets x and v before it returns the collection}; names {x, y, v, p, k} bound by let (fresh and shadowing), and through the construct itself (loop variable / key variable / parameter / data key equal to a name that is let-bound outside); g and len come from the data only (len is also the name of a default helper and must stay the data's value in every scope); probes <%= if (n) { %>[n=<%= n %>]<% } else { %>[n=-]<% } %> for every name before, inside and after each construct. Spices on the fixed pattern: a function defined once at top level and called at every level (it lets x and k before reading them, so definition-site and call-site resolution agree); bare assignment to a name let-bound in the same scope; shadowing lets that read what they shadow (let x = x + \"~L1\"); a let inside an if block inside the scope, read after the scope ended; partial(\"n\") / contentOf(\"n\") spelled without data. (E1) every nesting of 1, 2 and 3 of the five basic constructs (5 + 25 + 125) x 4 binding patterns x every subset of levels whose construct is ENTERED TWICE (wrapped in a two-iteration loop that binds nothing else), with a fixed let/probe pattern at every level; in half of them a block of literal text stored at top level is replayed with contentOf inside every deeper scope before that scope's lets; (E2) each of the 18 further kinds alone, inside and around each basic construct, x 4 binding patterns x every subset of levels entered twice; (E3) each spice alone and all together x every nesting of 1 and 2 of all 23 kinds x 4 binding patterns; (E4) BARE ASSIGNMENT TO NAMES BOUND FURTHER OUT: inside the body of every construct for which the statement says 'names set inside' (partial in its 6 kinds, contentFor / contentOf in its 3 kinds; NOT user functions, for which it names parameters and let-bound names only, and not block helpers, which it does not name) the fixed pattern first probes, then writes `n = v` without let to x (let-bound one level up, or bound there as parameter / data key / loop variable), y (let-bound two levels up), g and len (bound by the context data only) - whichever the construct just entered does not bind itself; g from its own outer value (g = g + ..), len inside an if block (not a scope) - and probes them again, inside and after the construct, also when it is entered twice; and, when a loop of any of the 11 kinds stands inside such a construct S (only single-pass loops in between, S not the recursive function), its body assigns g and len as the first thing of every pass (S then leaves them alone, so that they are bound two or three frames up and in no frame from S inwards): the new value is read in the pass, the old one after S; what S itself sees between the end of the loop and its own end is not probed (the write may be the loop's or S's: not said). Loops directly under the binding frame and nestings of loops only are left out (not said either). Every nesting of 1 and 2 of the 26 kinds that holds such a construct x 4 binding patterns, a sample of depth 3, a third also with the bare / if-let / chain-let shapes. Oracle: the statement makes what is set inside these constructs their own (\"parameters and let-bound names inside a user-defined function, and names set inside a partial or a contentOf/contentFor block with its own data ... leave same-named outer variables unchanged\"; child lookups fall through, writes stay local), so the program must render exactly what the SAME PROGRAM WITH EACH OF THESE ASSIGNMENTS WRITTEN AS let renders under the reference interpreter (kind \"assign\"; no failure tolerated); (RA) the random sequences of (R) with such assignments drawn directly in the bodies of own-scope constructs, to names that are certainly bound there (context data, names let-bound earlier in an enclosing block), same oracle; (F) a function that lets x and y and then fails on an unknown identifier - directly or inside any of the 21 constructs that run their body - called as the condition f() / !f() / f() == nil / f() != nil, at top level, in a for body, in a function body and in a loop of two iterations: the statements do not say whether that failure is tolerated, so the render may fail, and IF it succeeds its output must be that of the program with the condition written out as the literal a nil call gives; (R) random let/probe/construct sequences nested to depth 3 over all 23 kinds with the spices as further statements; (S) ten bodies whose own meaning the statements leave open (return inside a loop, in a nested loop, from a nested if; reading or shadowing what the last iteration bound; continue and break inside silent ifs, also after text; a function that returns from a loop, called twice; a block stored and used in every iteration; loops that never run) inside a SILENT construct - <% let r = f(..) %>, <% f(..) %>, a silent for of one and of two iterations - at top level, in a for body, in a function body and in a loop of two iterations: the render may fail, and IF it succeeds its output must be that of the program without the silent construct. In every phase a quarter of the cases parse their template once and execute it twice on fresh contexts; both executions must agree. Oracle: environment-chain reference interpreter (each construct is a child scope; lets and bound names vanish when it ends; outer names stay readable and unchanged; top-level let persists). Non-trivial: every case nests at least one construct (distinct by template + partial texts)."
 
 func decodeCase(raw json.RawMessage) (c Case, prog []model.Node, parts map[string][]model.Node, alt []model.Node, f *vk.Fail) {
 	if f = vk.Decode(raw, &c); f != nil {
